@@ -102,6 +102,7 @@ var (
 			LogDefaultScale: 25,
 		},
 		ParametersLiteral{
+			LogN: utils.Pointy(15), // the default is 16
 			SlotsToCoeffsFactorizationDepthAndLogScales: [][]int{{30, 30}},
 			CoeffsToSlotsFactorizationDepthAndLogScales: [][]int{{49}, {49}},
 			EvalModLogScale: utils.Pointy(50),
@@ -187,6 +188,7 @@ var (
 			LogDefaultScale: 31,
 		},
 		ParametersLiteral{
+			LogN: utils.Pointy(15), // the default is 16
 			SlotsToCoeffsFactorizationDepthAndLogScales: [][]int{{30, 30}},
 			CoeffsToSlotsFactorizationDepthAndLogScales: [][]int{{52}, {52}},
 			EvalModLogScale: utils.Pointy(55),
